@@ -13,6 +13,7 @@
 import Proofs.DbResolve
 import Proofs.DbUncached
 import Proofs.DbLift
+import Proofs.DbInterleave
 import Proofs.DbTable
 import HapModel.Gen.Services
 namespace Hap.C17
@@ -215,6 +216,39 @@ theorem C17_served_rendering (isBridge : Bool) (defs : List (SvcDef V P)) (ops :
   obtain ⟨ka, hka, rfl⟩ := ha
   obtain ⟨h1, h2⟩ := hu ka hka sv hsv c hc
   exact ⟨Or.inl h2, Or.inl h1⟩
+/-! ### reads in between (repaired IIDManager) -/
+
+/-- **Interleaved histories.** Construction operations and GET /accessories reads in any order,
+    from a freshly constructed accessory or bridge: the well-formedness invariant and C11's
+    cache invariant both hold afterwards.  This is where the repair is needed: `assign`,
+    `remove_obj` and `remove_iid` drop the cached representations of the object whose iid
+    changes (the cached `to_HAP` dict contains the iid). -/
+theorem C17_interleaved_invariant (isBridge : Bool) (defs : List (SvcDef V P)) (ops : List (Op17 V P)) :
+    ((Db.init isBridge defs).run17 ops).Good ∧ ((Db.init isBridge defs).run17 ops).CacheOk :=
+  run17_inv _ ops (init_good isBridge defs)
+    (cacheOk_of_db_uncached _ (init_uncached isBridge defs))
+
+/-- Hence, at any point of any interleaved history, the document GET /accessories serves
+    (through the caches) is the from-scratch rendering of the current structure and iid tables:
+    a removed or re-assigned object is never listed under an iid it no longer has. -/
+theorem C17_interleaved_served_is_fresh (isBridge : Bool) (defs : List (SvcDef V P)) (ops : List (Op17 V P))
+    (incl : Bool) (g : Nat → Option V) :
+    (((Db.init isBridge defs).run17 ops).renderCached incl g).1 =
+    (((Db.init isBridge defs).run17 ops).render incl g).1 :=
+  (Db.renderCached_spec _ incl g (C17_interleaved_invariant isBridge defs ops).2).1
+
+/-- … and every pair it lists (it lists exactly `Db.listing`, `C17_rendering_lists`) is listed
+    once and resolves to the same object for reads, writes and events. -/
+theorem C17_interleaved_resolution (isBridge : Bool) (defs : List (SvcDef V P)) (ops : List (Op17 V P))
+    (aid iid c : Nat)
+    (h : ((some aid, some iid), c) ∈ ((Db.init isBridge defs).run17 ops).listing) :
+    let s := (Db.init isBridge defs).run17 ops
+    s.listing.Pairwise (fun x y => x.1.2 ≠ none → x.1 ≠ y.1) ∧
+    s.resolveRead aid iid = some c ∧ s.resolveWrite aid iid = some c ∧
+    s.eventId c = some (some aid, some iid) :=
+  have hg := (C17_interleaved_invariant isBridge defs ops).1
+  ⟨listing_once _ hg, resolve_listed _ hg aid iid c h⟩
+
 /-- construction never fills a representation cache, so the state after a construction
     history satisfies C11's cache invariant trivially (C17 histories are observed at the end) -/
 theorem C17_fresh_service_uncached (o : Nat) (d : SvcDef V P) :
@@ -310,6 +344,24 @@ example : ((Db.init true [info] : Db Unit Unit).run
 example : (mkService 0 bulb).chars.length = 2 := by decide
 example : ((List.range 6).map (fun n => findAid (List.range' 2 n))) = [some 2, some 3, some 4, some 5, some 6, some 8] := by
   decide
+/-- `IIDManager.remove_obj` as it was before the repair: the maps change, the object's cached
+    representation stays -/
+def legacyRemove (s : Db Unit Unit) (o : Nat) : Db Unit Unit :=
+  { s with main := { s.main with iidm := ((s.main.iidm.removeObj o).map (·.1)).getD s.main.iidm } }
+
+def servedPairs (s : Db Unit Unit) : List (Option Nat × Option Nat) :=
+  ((s.renderCached false (fun _ => none)).1.map (fun rs => rs.flatMap AccRep.pairs)).getD []
+
+/-- Without the repair: GET /accessories, then `remove_obj` of the characteristic with iid 3, then
+    GET /accessories again still lists (1, 3), which no read resolves any more; with the repaired
+    operation the pair is gone from the listing. -/
+theorem C17_stale_iid_legacy_counterexample :
+    let s1 := ((Db.init true [info] : Db Unit Unit).renderCached false (fun _ => none)).2
+    ((servedPairs (legacyRemove s1 2)).contains (some 1, some 3) = true ∧
+     (legacyRemove s1 2).resolveRead 1 3 = none) ∧
+    (servedPairs (s1.step (.removeObj 1 2)).1).contains (some 1, some 3) = false := by
+  decide
+
 end examples
 
 end Hap.C17
